@@ -113,6 +113,10 @@ def items(tier, seed):
                 ('rounding_integer<__int128, %s>' % rdm[seed % 4], 'i128'),
                 ('static_integer<%d>' % [64, 90, 72, 80][seed % 4], 'i128'),
                 ('rounding_integer<%s, %s>' % (CT[rnd.choice(['i16', 'u32', 'u64', 'i64'])], rnd.choice(rdm)), None)]
+    wrappers += [('wide_integer<128, unsigned>', 'u128'), ('wide_integer<127, int>', 'i128')]
+    for (w, t, e, r) in [('wide_integer<128, unsigned>', 'u128', [-3, -70, 1, -64][seed % 4], 2), ('wide_integer<127, int>', 'i128', [10, -1, -40, 0][seed % 4], 2),
+                         ('wide_integer<128, unsigned>', 'u128', rnd.randint(-3, 3), 10), ('wide_integer<127, int>', 'i128', rnd.randint(-70, 70), 2)]:
+        out.append((0.8, 'tc::scw_sweep<%s, %s, %d, %d>(v_%s, 3);' % (w, CT[t], e, r, t)))
     for (w, t) in wrappers:
         if t is None:
             t = [k for k in CT if CT[k] in w][0]
